@@ -9,10 +9,58 @@ from terms import pt, subterms
 P = lambda n: ("param", n)      # noqa: E731
 
 
+def zero_iteration_guard(t, memo=None):
+    """`if a == empty { a } else { <iteration that starts from a> }` is that iteration: the classical stabilisation loops compare the
+    iterate with a previous value that starts as the empty set, so an empty start already leaves them after zero rounds - a guard that
+    spells this case out changes nothing (the `mu` form of a loop does not record the first comparison)."""
+    if memo is None:
+        memo = {}
+    if not isinstance(t, tuple) or not t:
+        return t
+    hit = memo.get(id(t))
+    if hit is not None and hit[0] is t:
+        return hit[1]
+    r = tuple(zero_iteration_guard(x, memo) if isinstance(x, tuple) else x for x in t)
+
+    def strip(x):
+        while isinstance(x, tuple) and x and x[0] == "call" and isinstance(x[1], str) and x[1].rsplit("::", 1)[-1] in ("clone", "to_owned", "borrow", "deref") and len(x[2]) == 1:
+            x = x[2][0]
+        return x
+
+    def is_empty_set(x):
+        x = strip(x)
+        return x[0] == "call" and isinstance(x[1], str) and x[1].rsplit("::", 1)[-1] in setalg.EMPTY_FNS
+    if r[0] == "ite" and r[3][0] == "mu":
+        c, a, m = r[1], strip(r[2]), r[3]
+        start = None
+        if c[0] == "bin" and c[1] == "==":
+            for x, y in ((c[2], c[3]), (c[3], c[2])):
+                if is_empty_set(x):
+                    start = strip(y)
+        elif c[0] == "call" and isinstance(c[1], str) and c[1].rsplit("::", 1)[-1] in ("is_empty", "#is_empty") and len(c[2]) == 1:
+            start = strip(c[2][0])
+        if start is not None and start == a and strip(m[3]) == a:
+            r = m
+    if r is not t and len(r) == len(t) and all(x is y for x, y in zip(r, t)):
+        r = t
+    memo[id(t)] = (t, r)
+    return r
+
+
+def zero_iteration_guards(t):
+    """The conditions of the zero-iteration guards (see zero_iteration_guard) that occur in a value."""
+    out = []
+    for x in [t] + list(subterms(t)):
+        if x[0] == "ite" and zero_iteration_guard(("ite", x[1], x[2], x[3])) is not x and zero_iteration_guard(("ite", x[1], x[2], x[3]))[0] != "ite":
+            out.append(x[1])
+    return out
+
+
 def same(alg, t1, t2):
     import norm
     nz = norm.Normalizer()
     t1, t2 = nz(t1), nz(t2)
+    t1, t2 = zero_iteration_guard(t1), zero_iteration_guard(t2)
     try:
         if alg.equivalent(alg.interp(t1), alg.interp(t2)):
             return True
@@ -71,6 +119,12 @@ def stabilisation_test(t, pol, lid, vars_):
     if not (t[0] == "bin" and t[1] in ("==", "!=") and (t[1] == "==") == bool(pol)):
         return False
     names = [x[2] for x in (t[2], t[3]) if x[0] == "loopvar" and x[1] == lid]
+    for new, old in ((t[2], t[3]), (t[3], t[2])):
+        # `loop { let prev = cur; cur = F(prev); if cur == prev { return cur } }`: the next value of the iterate against its current value
+        if old[0] == "loopvar" and old[1] == lid and new[0] != "loopvar":
+            upd = vars_.get(old[2], (None, None))[1]
+            if upd is not None and (upd == new or (upd[0] == "ite" and new in (upd[2], upd[3]) and old in (upd[2], upd[3]))):
+                return True
     if len(names) != 2 or names[0] == names[1]:
         return False
     for cur, prev in ((names[0], names[1]), (names[1], names[0])):
